@@ -128,19 +128,21 @@ func (obj *Hmm) Clone() *Hmm {
   pi := obj.Pi.CloneProbabilityVector()
   tr := obj.Tr.CloneTransitionMatrix()
   r, _ := newHmm(pi, tr, obj.StateMap, obj.N, false)
+  // Pi and Tf of the source are already restricted to the start and final
+  // states and normalized: copy them as they are (restricting and normalizing
+  // again changes the last bits)
   if obj.startStates != nil {
-    states := []int{}
-    for i, _ := range obj.startStates {
-      states = append(states, i)
+    r.startStates = make(map[int]bool)
+    for i, v := range obj.startStates {
+      r.startStates[i] = v
     }
-    r.SetStartStates(states)
   }
   if obj.finalStates != nil {
-    states := []int{}
-    for i, _ := range obj.finalStates {
-      states = append(states, i)
+    r.finalStates = make(map[int]bool)
+    for i, v := range obj.finalStates {
+      r.finalStates[i] = v
     }
-    r.SetFinalStates(states)
+    r.Tf = obj.Tf.CloneTransitionMatrix()
   }
   return r
 }
